@@ -18,17 +18,25 @@ ASSUME_RE = re.compile(
 
 
 def sh(cmd, cwd=None, env=None, timeout=None, stdin=None):
+    """run a command; on timeout the WHOLE process group is killed (cargo kani leaves cbmc grandchildren behind otherwise)"""
+    import signal
     e = dict(os.environ)
     e.setdefault("CARGO_NET_OFFLINE", "true")
     if env:
         e.update(env)
     t0 = time.time()
+    p = subprocess.Popen(cmd, cwd=cwd, env=e, stdout=subprocess.PIPE, stderr=subprocess.PIPE, text=True,
+                         stdin=subprocess.PIPE if stdin is not None else None, start_new_session=True)
     try:
-        p = subprocess.run(cmd, cwd=cwd, env=e, stdout=subprocess.PIPE, stderr=subprocess.PIPE,
-                           text=True, timeout=timeout, input=stdin)
-        return p.returncode, p.stdout, p.stderr, time.time() - t0
-    except subprocess.TimeoutExpired as ex:
-        return 124, ex.stdout or "", (ex.stderr or "") + "\nTIMEOUT", time.time() - t0
+        so, se = p.communicate(input=stdin, timeout=timeout)
+        return p.returncode, so, se, time.time() - t0
+    except subprocess.TimeoutExpired:
+        try:
+            os.killpg(p.pid, signal.SIGKILL)
+        except ProcessLookupError:
+            pass
+        so, se = p.communicate()
+        return 124, so or "", (se or "") + "\nTIMEOUT", time.time() - t0
 
 
 class Undecided(Exception):
@@ -444,6 +452,10 @@ def run_kani_property(run, cfg):
         open(os.path.join(run.build, "kani.%s.txt" % n.replace(":", "_")), "w").write(so2 + "\n-----\n" + se2)
         checks, tapes = parse_regular(so2)
         bad = [c for c in checks if c[1] == "FAILURE"] + [c for c in checks if c[0].split(".")[-2:-1] == ["cover"] and c[1] in ("UNSATISFIABLE", "UNREACHABLE")]
+        if any(c[1] in ("ERROR", "UNDETERMINED") for c in checks) and not [c for c in checks if c[1] == "FAILURE"]:
+            undecided = undecided or ("harness %s: CBMC left checks undetermined (%s) — tool limit, not a verdict" % (
+                n, "; ".join(sorted({c[2] for c in checks if c[1] in ("ERROR", "UNDETERMINED")}))[:200]))
+            continue
         if not bad:
             undecided = undecided or ("harness %s failed but no failing check could be parsed" % n)
             continue
@@ -453,6 +465,15 @@ def run_kani_property(run, cfg):
                 undecided = undecided or ("harness %s: %s (%s) — tool limit, not a verdict" % (n, desc, cname))
                 continue
             mine = "/kani/src/" in loc or loc.startswith("src/")
+            # obligations tagged "[C01 C02] ..." belong to those properties only; panics in the code under test belong
+            # to the harness' panic_props (default: the property being checked)
+            tags = re.match(r"\[((?:C\d+\s*)+)\]", desc)
+            owners = tags.group(1).split() if (mine and tags) else (h.get("panic_props") if (status == "FAILURE" and not mine) else None)
+            if owners and run.pid not in owners:
+                other = "harness %s: obligation of %s failed: %s" % (n, "/".join(owners), desc[:120])
+                run.notes.append(other)
+                undecided = undecided or other
+                continue
             if status == "FAILURE":
                 ob = ("%s@%s" % (desc, n)) if mine else ("no-panic[%s]@%s" % (re.sub(r".*in function ", "", loc), n))
             else:
@@ -496,8 +517,84 @@ def replay_tape(run, d, harness, tape):
     return {"reproduced": rc == 1, "output": (so + se)[-1500:], "cmd": cmd}
 
 
+# ======================================================================== compile-time type-state obligations (C19)
+def run_compile_snippets(run, cfg):
+    """Each snippet is compiled alone against the real crate.  must-fail snippets have to be rejected with the expected
+    error code on the expected method (a type-state precondition = a trait bound on the generated impl block); must-pass
+    snippets have to type-check.  The deciding engine here is rustc's trait solver: a static, for-all-values decision."""
+    import hashlib
+    sd = os.path.join(run.root, "snippets", cfg["snippets"])
+    tag = hashlib.sha1(os.path.abspath(run.repo).encode()).hexdigest()[:10]
+    d = os.path.join(run.root, "build", "snip-" + tag)
+    os.makedirs(os.path.join(d, "src", "bin"), exist_ok=True)
+    for f in glob.glob(os.path.join(d, "src", "bin", "*.rs")):
+        os.remove(f)
+    snippets = {}
+    for f in sorted(glob.glob(os.path.join(sd, "*.rs"))):
+        name = os.path.basename(f)[:-3]
+        txt = open(f).read()
+        m = re.search(r"//@ expect: (pass|fail)(?:\s+(E\d+)\s+(\S+))?", txt)
+        if not m:
+            raise Undecided("snippet %s has no //@ expect line" % name)
+        snippets[name] = (m.group(1), m.group(2), m.group(3), txt)
+        shutil.copy(f, os.path.join(d, "src", "bin", name + ".rs"))
+    open(os.path.join(d, "Cargo.toml"), "w").write(
+        '[package]\nname = "snip"\nversion = "0.1.0"\nedition = "2021"\n[dependencies]\npush = { path = "%s/packages/push" }\n'
+        'ordered-float = "5.0.0"\n[workspace]\n' % os.path.abspath(run.repo))
+    lock = os.path.join(run.repo, "Cargo.lock")
+    if os.path.exists(lock):
+        shutil.copy(lock, os.path.join(d, "Cargo.lock"))
+    rc, so, se, wall = sh(["cargo", "check", "--offline", "--bins", "--keep-going", "--message-format=json"], cwd=d, timeout=1500)
+    errs = {}
+    finished = set()
+    for l in so.split("\n"):
+        if not l.startswith("{"):
+            continue
+        try:
+            j = json.loads(l)
+        except Exception:
+            continue
+        if j.get("reason") == "compiler-message" and j.get("message", {}).get("level") == "error":
+            t = j.get("target", {}).get("name")
+            msg = j["message"]
+            code = (msg.get("code") or {}).get("code")
+            errs.setdefault(t, []).append((code, msg.get("message", ""), msg.get("rendered", "")))
+        if j.get("reason") == "compiler-artifact":
+            finished.add(j.get("target", {}).get("name"))
+    if "push" not in finished and not any(n in finished for n in snippets) and not errs:
+        raise Undecided("snippet crate did not build (the tree does not compile?):\n" + se[-1500:])
+    run.backends.setdefault("rustc (trait solver)", {"wall_seconds": 0.0})
+    run.backends["rustc (trait solver)"]["wall_seconds"] += wall
+    for name, (kind, code, method, txt) in snippets.items():
+        e = errs.get(name, [])
+        if kind == "pass":
+            ok = not e and name in finished
+            run.obligations.append(("snippet %s type-checks (legal builder call order)" % name, "rustc", ok, 0.0))
+            if not ok:
+                run.report_failure("must-compile[%s]" % name, "a call order the type-state must permit is rejected",
+                                   "\n".join(x[2] for x in e)[:3000] or "no artifact produced",
+                                   failing_input={"snippet": txt, "compiler_output": "\n".join(x[2] for x in e)[:2000]},
+                                   replay_cmd="cd %s && cargo check --offline --bin %s" % (d, name))
+        else:
+            hit = [x for x in e if x[0] == code and ("`%s`" % method) in x[1]]
+            ok = bool(hit)
+            run.obligations.append(("snippet %s is rejected with %s on `%s` (type-state precondition)" % (name, code, method), "rustc", ok, 0.0))
+            if not ok:
+                if e:
+                    # rejected, but not for the expected reason: cannot attribute -> undecided
+                    return "snippet %s is rejected for an unexpected reason: %s" % (name, "; ".join("%s %s" % (x[0], x[1][:80]) for x in e)[:300])
+                run.report_failure("must-not-compile[%s]" % name, "an illegal builder call sequence type-checks",
+                                   "expected %s on `%s`; the snippet compiled" % (code, method),
+                                   failing_input={"snippet": txt, "compiler_output": "compiles without error"},
+                                   replay_cmd="cd %s && cargo check --offline --bin %s" % (d, name))
+    return None
+
+
 def run_verus_property(run, cfg):
-    expanded = run.expand() if cfg.get("expand") else None
+    expanded = None
+    ex = cfg.get("expand")
+    for pkg in (["push"] if ex is True else (ex or [])):
+        expanded = run.expand(pkg)
     path = run.extract(cfg["templates"], expanded=expanded)
     run.scan_assumptions(path)
     extra = run.ensure_extern() if cfg.get("extern") else []
@@ -587,11 +684,13 @@ def main(root, argv):
         sys.exit(2)
     run = Run(root, pid, tier)
     undecided = None
-    try:
-        for step in cfg["steps"]:
+    for step in cfg["steps"]:
+        # every step runs even if an earlier one is undecided (the bounded Kani harnesses are the fallback when the
+        # Verus extraction loses its anchors on a rewritten function)
+        try:
             u = step(run, cfg)
-            if u and not undecided:
-                undecided = u
-    except Undecided as e:
-        undecided = str(e)
+        except Undecided as e:
+            u = str(e)
+        if u and not undecided:
+            undecided = u
     sys.exit(run.finish(cfg.get("level", "proof"), cfg, undecided))
